@@ -51,11 +51,25 @@ def run(ctx):
         ctx.add_broken(b.what, b.detail)
     rng = ctx.rng
     texts = [gen_spec(rng) for _ in range(500 if quick else 6000)]
-    out = ctx.run_impl_par("gen", [hx(t.encode()) for t in texts], nproc=8, timeout=1500, isolate=True)
-    stats = {"validated": 0, "rejected_spec": 0, "conflict_or_invalid": 0, "entries_checked": 0, "with_stateless_terminal": 0}
+    lines = [hx(t.encode()) for t in texts]
+    # a package of the same name generated into the same directory before, from a specification with more tokens (a longer
+    # lexer.go): the second generation is refused, or it leaves the package of the second specification behind
+    nre = 40 if quick else 400
+    # many keywords and a long pattern: its lexer.go is longer than almost any of the generated ones
+    LONG = ('grammar g;\nstart = ' + " ".join('"%s"' % w for w in ["alpha", "beta", "gamma", "delta", "epsilon", "zeta", "eta", "theta", "iota", "kappa", "lambda",
+                                                                    "omicron", "upsilon", "while", "until", "return", "function", "procedure"]) +
+            ' NUM;\nNUM = /[0-9]+(\\.[0-9]+)?([eE][0-9]+)?/;\n')
+    longer = [LONG] * nre
+    texts = texts + texts[:nre]
+    lines = lines + [hx(t.encode()) + " - " + hx(l.encode()) for t, l in zip(texts[:nre], longer)]
+    out = ctx.run_impl_par("gen", lines, nproc=8, timeout=1500, isolate=True)
+    stats = {"validated": 0, "rejected_spec": 0, "conflict_or_invalid": 0, "entries_checked": 0, "with_stateless_terminal": 0, "second_generation_refused": 0}
     distinct = set()
     for t, o in zip(texts, out):
         kind = o.split(" ")[0]
+        if kind == "REFUSED":
+            stats["second_generation_refused"] += 1
+            continue
         if kind in ("PARSEERR",):
             stats["rejected_spec"] += 1
             continue
